@@ -24,6 +24,7 @@ TRANSPARENT = set(norm(p) for p in [
     "std::option::Option::<&T>::copied", "std::option::Option::<&T>::cloned",
     "std::option::Option::<T>::as_ref", "std::option::Option::<T>::as_mut",
     "std::option::Option::<T>::unwrap", "std::option::Option::<T>::expect",
+    "std::result::Result::<T, E>::unwrap", "std::result::Result::<T, E>::expect",
     "std::ops::Try::branch", "std::result::Result::<T, E>::map_err", "std::path::Path::new",
     "std::vec::Vec::<T, A>::as_slice", "core::slice::<impl [T]>::to_vec", "std::slice::<impl [T]>::to_vec",
     "std::string::String::as_bytes", "std::string::String::as_str", "std::iter::IntoIterator::into_iter",
@@ -70,6 +71,8 @@ class Slicer(object):
                     names.append(e["n"])
                 elif e.get("upvar"):
                     names.append("<upvar%d>" % e["f"])
+                elif "adt" not in e:
+                    names.append("#%d" % e["f"])     # tuple component
         return self._local(pl["l"], tuple(names) + tuple(path), frozenset())
 
     def _local(self, l, path, visiting):
@@ -116,6 +119,8 @@ class Slicer(object):
                         out.add(("agg", rv["def"], bb, tuple(path)))
                 elif ak == "closure":
                     out.add(("agg", "closure:" + rv["def"], bb, tuple(path)))
+                elif ak == "tuple" and path and path[0].startswith("#") and int(path[0][1:]) < len(rv["ops"]):
+                    out |= self._operand(rv["ops"][int(path[0][1:])], path[1:], visiting)
                 else:
                     if not rv["ops"]:
                         out.add(("agg", rv.get("def", ak) + "::" + rv.get("vn", ""), bb, tuple(path)))
@@ -152,6 +157,8 @@ class Slicer(object):
                     names.append(e["n"])
                 elif e.get("upvar"):
                     names.append("<upvar%d>" % e["f"])
+                elif "adt" not in e:
+                    names.append("#%d" % e["f"])     # tuple component
         return self._local(pl["l"], tuple(names) + tuple(path), visiting)
 
     def _call(self, bb, t, path, visiting):
@@ -176,11 +183,107 @@ class Slicer(object):
         return {("call", p, bb, tuple(path))}
 
     # convenience -------------------------------------------------------------------------
+    def leaves_up(self, op, path=(), depth=3):
+        """leaves_of_operand, with the parameters of crate-private helpers replaced by the origins of the arguments
+        at every call site (so that extracting a helper does not hide where a value comes from)."""
+        return expand_up(self.world, self.body, self.leaves_of_operand(op, path), depth, self)
+
+    def place_leaves_up(self, pl, path=(), depth=3):
+        return expand_up(self.world, self.body, self.leaves_of_place(pl, path), depth, self)
+
     def call_leaves(self, op):
         return set(l for l in self.leaves_of_operand(op) if l[0] == "call")
 
     def call_at(self, bb):
+        if isinstance(bb, tuple):
+            return self.prog.bodies[bb[0]].blocks[bb[1]]["term"]
         return self.body.blocks[bb]["term"]
+
+    def at(self, bb):
+        """The slicer of the body a (possibly foreign) leaf location lies in."""
+        if not isinstance(bb, tuple) or bb[0] == self.body.path:
+            return self
+        return Slicer(self.world, self.prog.bodies[bb[0]], transparent=self.transparent,
+                      local_transparent=self.local_transparent, follow_local=self.follow_local)
+
+    def body_at(self, bb):
+        return self.prog.bodies[bb[0]] if isinstance(bb, tuple) else self.body
+
+
+def _is_root(body):
+    return bool(body.reachable) and not body.is_closure
+
+
+def _closure_sites(prog, closure_path):
+    idx = getattr(prog, "_closure_sites", None)
+    if idx is None:
+        idx = {}
+        for b in prog.bodies.values():
+            for bb, blk in enumerate(b.blocks):
+                for st in blk["stmts"]:
+                    if st["k"] == "assign" and st["rv"]["k"] == "agg" and st["rv"].get("ak") == "closure":
+                        idx.setdefault(st["rv"]["def"], []).append((b, bb, st["rv"]))
+        prog._closure_sites = idx
+    return idx.get(closure_path, [])
+
+
+def _tag(leaf, body):
+    k = leaf[0]
+    if k in ("call", "agg", "binop", "discr") and not isinstance(leaf[2], tuple):
+        return (k, leaf[1], (body.path, leaf[2])) + tuple(leaf[3:])
+    return leaf
+
+
+def expand_up(world, body, leaves, depth=3, slicer=None, _seen=None):
+    prog = world.prog
+    _seen = _seen or frozenset()
+    out = set()
+    for l in leaves:
+        if l[0] == "param" and not _is_root(body) and depth > 0 and (body.path, l[1]) not in _seen:
+            callers = prog.callers_index().get(body.path, [])
+            direct = [(site, how) for site, how in callers if how == "direct" and site.kind == "call"]
+            if direct and len(direct) == len(callers):
+                seen2 = _seen | {(body.path, l[1])}
+                for site, how in direct:
+                    args = site.term["args"]
+                    if l[1] - 1 >= len(args):
+                        out.add(("unknown", "arity", l[2]))
+                        continue
+                    cb = site.body
+                    sl = Slicer(world, cb, transparent=None if slicer is None else slicer.transparent,
+                                local_transparent=() if slicer is None else slicer.local_transparent,
+                                follow_local=True if slicer is None else slicer.follow_local)
+                    sub = sl.leaves_of_operand(args[l[1] - 1], l[2])
+                    sub = expand_up(world, cb, sub, depth - 1, slicer, seen2)
+                    for x in sub:
+                        if x[0] == "param":
+                            x = ("xparam", (cb.path, x[1]), x[2])
+                        elif x[0] == "upvar":
+                            x = ("xupvar", (cb.path, x[1]), x[2])
+                        out.add(_tag(x, cb))
+                continue
+        if l[0] == "upvar" and body.is_closure and depth > 0 and (body.path, -l[1] - 1) not in _seen:
+            sites = _closure_sites(prog, body.path)
+            if sites:
+                seen2 = _seen | {(body.path, -l[1] - 1)}
+                for (pb, bb, rv) in sites:
+                    if l[1] >= len(rv["ops"]):
+                        out.add(("unknown", "upvar-arity", l[2]))
+                        continue
+                    sl = Slicer(world, pb, transparent=None if slicer is None else slicer.transparent,
+                                local_transparent=() if slicer is None else slicer.local_transparent,
+                                follow_local=True if slicer is None else slicer.follow_local)
+                    sub = sl.leaves_of_operand(rv["ops"][l[1]], l[2])
+                    sub = expand_up(world, pb, sub, depth - 1, slicer, seen2)
+                    for x in sub:
+                        if x[0] == "param":
+                            x = ("xparam", (pb.path, x[1]), x[2])
+                        elif x[0] == "upvar":
+                            x = ("xupvar", (pb.path, x[1]), x[2])
+                        out.add(_tag(x, pb))
+                continue
+        out.add(l)
+    return out
 
 
 _RET_CACHE = {}
@@ -208,14 +311,16 @@ def fmt_leaf(l):
     k = l[0]
     if k == "param":
         s = "param#%d" % l[1]
+    elif k in ("xparam", "xupvar"):
+        s = "%s#%d of %s" % ("param" if k == "xparam" else "captured", l[1][1], l[1][0])
     elif k == "upvar":
         s = "captured#%d" % l[1]
     elif k == "call":
-        s = "%s(..)@bb%d" % (l[1], l[2])
+        s = "%s(..)@bb%s" % (l[1], l[2] if not isinstance(l[2], tuple) else "%s:%d" % l[2])
     elif k == "const":
         s = "const %r" % (l[1],)
     elif k in ("agg", "binop", "discr"):
-        s = "%s:%s@bb%d" % (k, l[1], l[2])
+        s = "%s:%s@bb%s" % (k, l[1], l[2] if not isinstance(l[2], tuple) else "%s:%d" % l[2])
     else:
         s = "%s:%s" % (k, l[1])
     path = l[-1]
